@@ -39,7 +39,9 @@ def plan(tier, seed):
             shape = [int(rng.integers(1, lim + 1)) for _ in range(nd)]
             c = {"fn": f, "shape": shape, "cplx": bool(rng.random() < 0.5),
                  "dt": pick(rng, ["default", "default", "default", "float32", "complex64",
-                                  "int64"]), "noncontig": bool(rng.random() < 0.25),
+                                  "int64"]),
+                 "noncontig": pick(rng, [False, False, "strided", "F", "T"]),
+                 "dtseq": bool(rng.random() < 0.25),
                  "via": pick(rng, ["func", "linop"])}
             if f == "resize":
                 c["oshape"] = [max(1, s + int(rng.integers(-4, 5))) for s in shape]
@@ -75,7 +77,7 @@ def plan(tier, seed):
                                    for s, ff, h in zip(shape, c["factors"], sh)]
             else:
                 D = nd
-                batch = pick(rng, [[], [], [2], [2, 1]])
+                batch = pick(rng, [[], [], [2], [2, 1], [2, 3]])
                 c["batch"] = batch
                 c["blk"] = [int(rng.integers(1, s + 1)) for s in shape]
                 c["strides"] = [int(rng.integers(1, b + 2)) for b in c["blk"]]
@@ -93,12 +95,16 @@ def label(shape, cplx):
         x = x + 1j * x
     if _DT[0] != "default":
         x = x.astype(_DT[0])
-    if _NC[0] and x.ndim >= 1:
+    if _NC[0] in (True, "strided") and x.ndim >= 1:
         # same values seen through a strided (non-contiguous) view
         big = np.zeros(tuple(2 * n for n in x.shape), x.dtype)
         sl = tuple(slice(None, None, 2) for _ in x.shape)
         big[sl] = x
         x = big[sl]
+    elif _NC[0] == "F":
+        x = np.asfortranarray(x)
+    elif _NC[0] == "T" and x.ndim >= 2:
+        x = np.ascontiguousarray(x.T).T          # transposed view of a C array
     return x
 
 
@@ -195,6 +201,22 @@ def ref_b2a(y, batch_nd, N, b, s):
 
 
 def run_case(case):
+    if case.get("dtseq") and not case.get("_inner"):
+        # dtype history: the same call for a sequence of element types in one process,
+        # narrowest first (anything remembered between calls must be keyed by the dtype)
+        last = None
+        for dt in ("int64", "float32", "default", "complex64", "default"):
+            r = run_case(dict(case, dt=dt, _inner=True, cplx=(dt in ("default", "complex64"))))
+            if r["verdict"] != "held":
+                r["why"] = "in a sequence of calls with other element types: " + r.get("why", "")
+                return r
+            last = r
+        last["sig"] = "dtseq|" + last["sig"]
+        return last
+    return run_one(case)
+
+
+def run_one(case):
     import sigpy as sp
     L = sp.linop
     f = case["fn"]
@@ -290,7 +312,7 @@ def run_case(case):
         return violated(sig, "%s raised %s: %s" % (f, type(inn).__name__, str(inn)[:200]),
                         wit, mech=mech)
     sig = "%s|%s|%s|%s|%s%s" % (f, via, cls, "c" if cplx else "r", case.get("dt", "default"),
-                                "|nc" if case.get("noncontig") else "")
+                                "|%s" % case.get("noncontig") if case.get("noncontig") else "")
     x0 = label(x.shape, cplx)
     if not np.array_equal(x, x0):
         return violated(sig, "%s modified its input" % f, wit, mech="mutated")
